@@ -13,7 +13,18 @@ Definition show_st (s : st) : string :=
 Definition show_one (p : st * ev) : string :=
   (if crashed (snd p) then "!" else "") ++ show_st (fst p).
 
-(** case = (rotateLength (0 = None), maxRotatedFiles, files present before the LogFile is made, operations) *)
+(** lengths only *)
+Definition show_short (p : st * ev) : string :=
+  let s := fst p in
+  (if crashed (snd p) then "!" else "") ++
+  "[" ++ String.concat "," (map (fun e : nat * list N => show_nat (fst e) ++ "." ++ show_nat (List.length (snd e))) (rot s))
+  ++ "|" ++ show_nat (List.length (cur s)) ++ "|" ++ show_nat (size s) ++ "]".
+
+(** case = (rotateLength (0 = None), maxRotatedFiles, files present before the LogFile is made, operations).
+    Printed: after every operation the file numbers with their lengths, the length of the current file and
+    [size]; then the full contents of the final directory (contents are only ever moved, never edited). *)
 Definition run_show (c : nat * option nat * (list entry * bytes) * list op) : string :=
   let '(rl, maxr, (rot0, cur0), ops) := c in
-  String.concat " " (map show_one (trace rl maxr (mk rot0 cur0 (List.length cur0)) ops)).
+  let s0 := mk rot0 cur0 (List.length cur0) in
+  let tr := trace rl maxr s0 ops in
+  String.concat " " (map show_short tr) ++ " # " ++ show_st (last (map fst tr) s0).
